@@ -593,6 +593,13 @@ def _loop_sources(node):
     return sorted(out)
 
 
+READER_PREFIXES = ("_read", "from_spreadsheet", "from_rows", "from_tables", "_parse", "cell_get", "validate_category", "_process_transitions", "_sanitize")
+
+
+def _is_reader(fi):
+    return fi.node.name.startswith(READER_PREFIXES)
+
+
 def validation_sites(repo):
     """[{function, key, error, guards:[[test text, polarity], ...]}] for every raise of a dedicated invalid-input class in the loader modules"""
     from ..core.cfg import guards_of as _g
@@ -606,6 +613,16 @@ def validation_sites(repo):
                         continue  # a wrap of another error, not a rule of its own
                     g = [[ast.unparse(t), bool(pol)] for t, pol in branch_guards(r)]
                     out.append({"function": "%s:%s" % (m, fi.qualname), "key": _message_key(r), "error": ast.unparse(r.exc.func), "guards": g, "loop_sources": _loop_sources(r)})
+                elif _is_reader(fi) and isinstance(r, ast.Raise) and r.exc is not None and isinstance(r.exc, ast.Call) and ast.unparse(r.exc.func) not in DEDICATED:
+                    # a refusal of a sheet reader raised as a plain exception: the entry points wrap it into the dedicated class (R18b), the *rule* is decided here
+                    if any(isinstance(p_, ast.ExceptHandler) for p_ in ancestors(r)):
+                        continue
+                    g = [[ast.unparse(t), bool(pol)] for t, pol in branch_guards(r)]
+                    out.append({"function": "%s:%s" % (m, fi.qualname), "key": _message_key(r), "error": ast.unparse(r.exc.func) + " (wrapped by the loader entry point)", "guards": g, "loop_sources": _loop_sources(r)})
+                elif _is_reader(fi) and isinstance(r, ast.Assert) and (m, fi.qualname) not in ASSERTING_VALIDATORS:
+                    g = [[ast.unparse(r.test), False]] + [[ast.unparse(t), bool(pol)] for t, pol in branch_guards(r)]
+                    key = (_first_text(r.msg) if r.msg is not None else None) or _words(ast.unparse(r.test))
+                    out.append({"function": "%s:%s" % (m, fi.qualname), "key": key, "error": "AssertionError (wrapped by the loader entry point)", "guards": g, "loop_sources": _loop_sources(r)})
                 elif isinstance(r, ast.Assert) and (m, fi.qualname) in ASSERTING_VALIDATORS:
                     # an assertion of a validator whose AssertionError the caller converts into the dedicated error: refused when the test is false
                     g = [[ast.unparse(r.test), False]] + [[ast.unparse(t), bool(pol)] for t, pol in branch_guards(r)]
